@@ -346,6 +346,9 @@ func (ex *Exec) assertOblN(c *Term, id string, kfs []string, regions []*Term) {
 		ob.Verdict = "inconclusive"
 	}
 	h.obls = append(h.obls, ob)
+	if vd == Sat && ex.hooks.concrete != nil {
+		return // concrete mode: record and go on, like the native harness does
+	}
 	if vd == Sat {
 		// continue the path under the assumption that the assertion holds (find independent violations)
 		if c.IsConst() {
